@@ -281,7 +281,12 @@ class ExprGen:
             return ('bin', '**', a, b)
         if s.coin('trig', self.trig_bias):
             # rule triggers: e op e, e op -e, literal identities, nested same-operator chains
-            c = s.choose('trigkind', 7)
+            c = s.choose('trigkind', 9)
+            if c == 7:
+                # (a op lit) op (b op c): both sides are applications of the same operator
+                return ('bin', op, ('bin', op, a, self.num_lit()), ('bin', op, self.num(d + 2), self.num(d + 2)))
+            if c == 8:
+                return ('bin', op, ('bin', op, self.num(d + 2), a), ('bin', op, self.ref(NUM_FIELDS), self.num_lit()))
             if c == 0:
                 return ('bin', op, a, a)
             if c == 1:
@@ -302,7 +307,8 @@ class ExprGen:
     def num_api(self, d):
         s = self.sim
         if s.coin('apibin', 0.3):
-            return ('callv', s.pick('binfun', BINARY_FUNS), [self.num(d + 2), self.num(d + 2)])
+            args = [self.num_lit() if s.coin('binlit', 0.5) else self.num(d + 2) for _ in range(2)]
+            return ('callv', s.pick('binfun', BINARY_FUNS), args)
         n = s.randint('nvar', 2, 4)
         args = [self.num_lit() if s.coin('varlit', 0.5) else self.num(d + 2) for _ in range(n)]
         return ('callv', s.pick('varfun', VARIADIC_FUNS), args)
@@ -341,7 +347,11 @@ class ExprGen:
         op = s.weighted('conn', [(4, 'and'), (4, 'or'), (2, 'implies'), (2, 'iff')])
         a = self.boolean(d + 1)
         if s.coin('trigb', self.trig_bias):
-            c = s.choose('trigbkind', 6)
+            c = s.choose('trigbkind', 8)
+            if c == 6:
+                return ('bin', op, ('bin', op, a, ('lit', 'bool', s.pick('blit', ('True', 'False')))), ('bin', op, self.boolean(d + 2), self.boolean(d + 2)))
+            if c == 7:
+                return ('bin', op, ('bin', op, self.boolean(d + 2), a), ('bin', op, self.ref(BOOL_FIELDS), self.boolean(d + 2)))
             if c == 0:
                 return ('bin', op, a, a)
             if c == 1:
@@ -411,7 +421,16 @@ class ExprGen:
         q = s.pick('quantifier', ('forall', 'exists'))
         self.qvars.append((v, 'num'))
         try:
-            use = ('bin', s.pick('qrel', RELOPS + EQOPS), ('var', v), self.num(d + 2))
+            uk = s.choose('quse', 6)
+            if uk == 0:
+                # the variable stays as wide as the language allows (compared with an untyped field)
+                use = ('bin', s.pick('qeq', EQOPS), ('var', v), self.ref(NUM_FIELDS))
+            elif uk == 1:
+                use = ('bin', 'in', ('var', v), self.ref(NUMARR_FIELDS))
+            elif uk == 2:
+                use = ('bin', '>', ('call', 'abs', ('var', v)), self.num_lit())
+            else:
+                use = ('bin', s.pick('qrel', RELOPS + EQOPS), ('var', v), self.num(d + 2))
             if s.coin('qmore', 0.5):
                 body = ('bin', s.pick('qconn', ('and', 'or', 'implies')), use, self.boolean(d + 2))
             else:
